@@ -445,6 +445,12 @@ class Comparison(Display):
             None if s.request is None else s.request.coded_const_prefix() for s in dl2.services
         ]
 
+        # check for deleted diagnostic services
+        for service2_idx, service2 in enumerate(dl2.services):
+            if service2.short_name not in dl1_service_names and dl2_request_prefixes[
+                    service2_idx] not in dl1_request_prefixes:
+                deleted_services.append(service2)
+
         # compare diagnostic services
         for service1 in dl1.services:
 
@@ -495,18 +501,7 @@ class Comparison(Display):
                             2].append(  # type: ignore[union-attr]
                                 detailed_information[0])  # type: ignore[arg-type]
 
-            for service2_idx, service2 in enumerate(dl2.services):
-
-                # check for deleted diagnostic services
-                if service2.short_name not in dl1_service_names and dl2_request_prefixes[
-                        service2_idx] not in dl1_request_prefixes:
-
-                    deleted_list = service_dict["deleted_services"]
-                    assert isinstance(deleted_list, list)
-                    if service2 not in deleted_list:
-                        service_dict["deleted_services"].append(  # type: ignore[union-attr]
-                            service2)  # type: ignore[arg-type]
-
+            for service2 in dl2.services:
                 if service1.short_name == service2.short_name:
                     # compare request, pos. response and neg. response parameters of both diagnostic services
                     detailed_information = self.compare_services(service1, service2)
